@@ -81,6 +81,19 @@ def generate(tier, rng):
            'seed': rng.choice([0, 1, 2 ** 32 - 1, rng.randrange(2 ** 32), rng.randrange(100)]),
            'start': rng.choice([0, 0, 1, rng.randrange(0, maxround)]),
            'ops': _history(rng, kinds[i % len(kinds)], maxround), 'fd': ['mem', 'subset', 'mem', 'sqlite'][i % 4]}
+  # str client ids (InMemoryFederatedData accepts them) with trailing-NUL twins next to the bytes ones:
+  # 'b' / 'b\x00' / 'b\x00\x00' must stay three different clients
+  twins = [[98], [98, 0], [98, 0, 0], [97], [97, 0], [99, 0]]
+  for j in range(30 if tier == 'quick' else 120):
+    nc = rng.choice([2, 3, 4, 6])
+    yield {'kind': 'get', 'ids': twins[:nc] if j % 2 == 0 else _ids(nc, j % 3), 'n': rng.randrange(1, nc + 1),
+           'seed': rng.choice([0, 1, rng.randrange(2 ** 32)]), 'start': rng.randrange(0, 5),
+           'ops': _history(rng, kinds[j % len(kinds)], 12), 'fd': ['mem', 'subset'][j % 2], 'idtype': 'str'}
+  for j in range(10 if tier == 'quick' else 40):
+    nc = rng.choice([2, 3, 6])
+    yield {'kind': 'stream', 'ids': twins[:nc], 'n': rng.randrange(1, nc + 1), 'start': rng.choice([0, 1, 2]), 'k': 2,
+           'B': rng.choice([1, 2, nc + 1]), 'seed': rng.choice([0, 1, rng.randrange(2 ** 32)]), 'src': 'fd',
+           'fd': ['mem', 'subset'][j % 2], 'idtype': 'str'}
   # every cohort size of one dataset, same seed / round: 1..nc
   for nc in (3, 6):
     for n in range(1, nc + 1):
@@ -105,6 +118,15 @@ def generate(tier, rng):
 
 # --------------------------------------------------------------------------
 
+def _pyid(codes, case):
+  """The python client id for a list of code points: bytes, or str for idtype == 'str'."""
+  return ''.join(chr(c) for c in codes) if case.get('idtype') == 'str' else bytes(codes)
+
+
+def _codes(cid):
+  return [ord(c) for c in cid] if isinstance(cid, str) else list(cid)
+
+
 def _rows(k):
   return [100 * k + j for j in range(1 + k % 3)]
 
@@ -112,7 +134,7 @@ def _rows(k):
 def _fd(case):
   """(federated data, ids in client_ids() order, cleanup)."""
   import fedjax
-  ids = sorted(bytes(i) for i in case['ids'])
+  ids = sorted(_pyid(i, case) for i in case['ids'])
   data = {cid: {'x': np.array(_rows(k), dtype=np.int32)} for k, cid in enumerate(ids)}
   if case.get('fd') == 'sqlite':
     import os
@@ -127,6 +149,8 @@ def _fd(case):
   if case.get('fd') == 'subset':
     from fedjax.core import federated_data as fdm
     extra = {b'\x00extra': {'x': np.array([-1], dtype=np.int32)}, b'zz_extra\x00': {'x': np.array([-2, -3], dtype=np.int32)}}
+    if case.get('idtype') == 'str':
+      extra = {k.decode('latin1'): v for k, v in extra.items()}
     extra = {k: v for k, v in extra.items() if k not in data}
     return fdm.SubsetFederatedData(fedjax.InMemoryFederatedData({**data, **extra}), ids), ids, lambda: None
   return fedjax.InMemoryFederatedData(data), ids, lambda: None
@@ -149,7 +173,7 @@ def _key_table(rounds, n):
 
 
 def _clients(out):
-  return [[list(cid), np.asarray(ds.raw_examples['x']).tolist(), [int(v) for v in np.asarray(key).ravel().tolist()]]
+  return [[_codes(cid), np.asarray(ds.raw_examples['x']).tolist(), [int(v) for v in np.asarray(key).ravel().tolist()]]
           for cid, ds, key in out]
 
 
@@ -178,7 +202,7 @@ def _run(case, fd, ids):
   if case['kind'] == 'get':
     seed = case['seed']
     sampler = cs.UniformGetClientSampler(fd, n, seed, start_round_num=case['start'])
-    outs, rounds, restart_same = [], [], []
+    outs, rounds, restart_same, kept = [], [], [], []
     r = case['start']
     for o in case['ops']:
       if o[0] == 'R':
@@ -186,7 +210,9 @@ def _run(case, fd, ids):
         r = o[1]
         continue
       try:
-        got = _clients(sampler.sample())
+        raw = sampler.sample()
+        got = _clients(raw)
+        kept.append((len(outs), raw))
       except Exception as ex:  # pylint: disable=broad-except
         outs.append(type(ex).__name__)
         rounds.append(r)
@@ -201,6 +227,8 @@ def _run(case, fd, ids):
         fresh = type(ex).__name__
       restart_same.append(fresh == got)
       r += 1
+    # every cohort handed out earlier must still read the same after the later rounds were sampled
+    stable = [j for j, raw in kept if _clients(raw) != outs[j]]
     # the oracle answers, recomputed independently of the implementation
     start_val = int(np.random.RandomState(seed).randint(1, M31 - 1))
     table, contract = [], 1 <= start_val < M31 - 1
@@ -216,7 +244,7 @@ def _run(case, fd, ids):
     ktab, inj = _key_table(set(rounds) | {x + 1 for x in rounds} | {max(0, x - 1) for x in rounds} | {0, case['seed'] % (2 ** 31)}, n)
     paths = [[list(ktab.get(tuple(c[2]), (-1, -1))) for c in o] if isinstance(o, list) else None for o in outs]
     return {'outs': outs, 'rounds': rounds, 'restart_same': restart_same, 'start_val': start_val, 'table': table,
-            'numpy_contract': bool(contract), 'key_paths': paths, 'key_table_injective': inj}
+            'numpy_contract': bool(contract), 'key_paths': paths, 'key_table_injective': inj, 'changed_later': stable}
   # ---- streaming sampler
   start, k = case['start'], case['k']
 
@@ -257,13 +285,13 @@ def _run(case, fd, ids):
 
 def _check_round(out, ids, n, tag):
   v = []
-  got_ids = [bytes(c[0]) for c in out]
+  got_ids = [tuple(c[0]) for c in out]
   if len(out) != n:
     v.append((tag + 'cohort-size', f'{len(out)} clients returned, cohort size is {n}'))
   if len(set(got_ids)) != len(got_ids):
     v.append((tag + 'repeated-client', 'a client occurs twice in one round'))
   for c in out:
-    cid = bytes(c[0])
+    cid = tuple(c[0])
     if cid not in ids:
       v.append((tag + 'foreign-id', f'id {cid!r} is not an id of the dataset'))
     elif c[1] != _rows(ids.index(cid)):
@@ -288,7 +316,7 @@ def _keys_across(outs, rounds, tag):
 
 
 def oracle(case, obs):
-  ids = sorted(bytes(i) for i in case['ids'])
+  ids = sorted(tuple(i) for i in case['ids'])
   n = case['n']
   v = []
   if not obs['key_table_injective']:
@@ -308,6 +336,9 @@ def oracle(case, obs):
       if not same:
         v.append(('restart-differs', f'a sampler restarted at round {r} does not reproduce the original round {r}'))
     v += _keys_across(obs['outs'], obs['rounds'], '')
+    for j in obs.get('changed_later', []):
+      v.append(('cohort-changed-later', f'the cohort returned for round {obs["rounds"][j]} (ids / datasets / keys) reads differently '
+                'after other rounds were sampled'))
     return v
   if obs['err'] is not None:
     return v + [('stream-raised', f'the streaming sampler raised {obs["err"]}')]
@@ -335,7 +366,7 @@ def _pair(p):
 
 
 def encode(case, obs):
-  ids = sorted(bytes(i) for i in case['ids'])
+  ids = sorted(tuple(i) for i in case['ids'])
   n = case['n']
   if case['kind'] == 'get':
     if any(r > MAX_MODEL_ROUND for r in obs['rounds']) or not obs['outs']:
@@ -354,7 +385,7 @@ def encode(case, obs):
     return f'({c}, OGet [{"; ".join(outs)}])'
   if obs['err'] is not None:
     return f'(CStream {n}%Z {case["start"]}%Z {_zl(obs["stream"])} {case["k"]}%nat, OGet [])'
-  outs = '[' + '; '.join('[' + '; '.join(f'({ids.index(bytes(c[0])) if bytes(c[0]) in ids else -2}%Z, {_pair(p)})'
+  outs = '[' + '; '.join('[' + '; '.join(f'({ids.index(tuple(c[0])) if tuple(c[0]) in ids else -2}%Z, {_pair(p)})'
                                           for c, p in zip(o, kp)) + ']'
                          for o, kp in zip(obs['outs'], obs['key_paths'])) + ']'
   return f'(CStream {n}%Z {case["start"]}%Z {_zl(obs["stream"])} {case["k"]}%nat, OStream {outs})'
@@ -367,7 +398,7 @@ def nontrivial(case, obs):
 
 
 def describe(case, obs):
-  d = {'kind': case['kind'], 'fd': case.get('fd', 'mem'), 'clients': len(case['ids']), 'cohort': 'all' if case['n'] >= len(case['ids']) else 'one' if case['n'] == 1 else 'some',
+  d = {'kind': case['kind'], 'fd': case.get('fd', 'mem'), 'idtype': case.get('idtype', 'bytes'), 'clients': len(case['ids']), 'cohort': 'all' if case['n'] >= len(case['ids']) else 'one' if case['n'] == 1 else 'some',
        'trailing_zero_ids': sum(1 for i in case['ids'] if i and i[-1] == 0) > 0}
   if case['kind'] == 'get':
     rs = obs['rounds']
